@@ -311,6 +311,11 @@ func (g *G) cdxNode(id string, v int, inClass bool) M {
 			attrs["PrimaryPurpose"] = ps
 		}
 	}
+	if g.Chance(0.15) {
+		// attributes CycloneDX has no member for: they are not written, and nothing else is written
+		// in their place
+		attrs[g.Pick([]string{"Summary", "SourceInfo", "Comment", "LicenseComments"})] = g.Pick([]string{"a library, in short", "built from source", "x"})
+	}
 	for _, f := range []string{"Name", "Version", "Description", "Copyright"} {
 		if g.Chance(0.6) {
 			attrs[f] = g.text()
